@@ -187,6 +187,23 @@ CLAIMED = {
         "'the seed' as the seed of the network that creates the map (DESIGN.md); harness.",
         "DESIGN.md section 5, C18",
     ),
+    "C06": (
+        "Coq proofs by structural induction (printer output is derivable in a stratified grammar relation for Python's "
+        "expression syntax; symbolic operators build the tree of the written operations) about a hand-written executable "
+        "model of expr_tree.py / symbolic.py; printed strings compared with the model in Coq and re-parsed with CPython",
+        "Theorems for every tree over {| ^ & << >> + - * @ / // % **, unary - + ~, attribute, zero-argument call}: the "
+        "printed token string is derivable at the tree's own precedence level with exactly that tree (soundness of the "
+        "parenthesisation rules incl. the right-associative **); for every symbolic program over sym.X, sym('...'), numbers, "
+        "+ - * / - ~ and the four methods the operators build the tree of the written operations with the same nesting, "
+        "and that tree prints soundly; upstream's unrepaired rule is kept with its partial theorem and the witness "
+        "(a ** b) ** c. Evaluation of the re-parsed tree is the C10 evaluator. PARTIAL: determinism of the grammar relation "
+        "(one tree per string) is not proved - CPython's ast.parse is compared with the original tree on every printed "
+        "string instead; comparison / boolean operators are checked through CPython only; ellipsis-shortened names are "
+        "outside the claim. Tie: ~900 (thorough ~6000) trees, 210 (1800) symbolic programs in three algebras evaluated "
+        "against C10's model, 240 (2400) generated pointer names re-parsed. Four defects found and repaired.",
+        "Trusted: Coq kernel; Model/ExprTree.v, Model/Symbolic.v; CPython's parser as the reference grammar; harness.",
+        "DESIGN.md section 5, C06",
+    ),
 }
 
 NOT_YET = "not yet built in this revision of /verif (design in DESIGN.md section 5); no check is claimed"
